@@ -12,6 +12,7 @@ import OPModel.Drive.C16
 import OPModel.Drive.C17
 import OPModel.Drive.C10
 import OPModel.Drive.C11
+import OPModel.Drive.C13
 
 open OP
 
@@ -32,6 +33,7 @@ def handle (line : String) : String :=
   | "rdp" :: args => Drive.rdpOp args
   | "zones" :: args => Drive.zonesOp args
   | "graphsets" :: args => Drive.graphsets args
+  | "slices" :: args => Drive.slicesOp args
   | "pinch" :: args => Drive.pinch args
   | "pincht" :: args => Drive.pincht args
   | _ => "bad-op"
